@@ -291,6 +291,7 @@ fn host_avx2() -> bool {
 }
 
 static COST_MAX_LOG2: AtomicUsize = AtomicUsize::new(16);
+static LONG_HISTORY_LOG2: AtomicUsize = AtomicUsize::new(0);
 /// `--also-model`: disagreement of a one-shot result with the naive model
 /// counts as a violation of the running profile too (used by the driver's
 /// isolation oracle for C15: a call must return what it returns in isolation)
@@ -306,7 +307,14 @@ pub fn target() -> gen::Target {
     if PORTABLE.load(Ordering::Relaxed) {
         // the same episodes on every target and build flavour (C09 across
         // processes): nothing target specific may influence generation
-        return gen::Target { x86_64: false, aarch64: false, miri: false, scale_small: true, cost_max_log2: 10 };
+        return gen::Target {
+            x86_64: false,
+            aarch64: false,
+            miri: false,
+            scale_small: true,
+            cost_max_log2: 10,
+            long_history_log2: 0,
+        };
     }
     gen::Target {
         x86_64: cfg!(target_arch = "x86_64"),
@@ -314,6 +322,7 @@ pub fn target() -> gen::Target {
         miri,
         scale_small: miri,
         cost_max_log2: if miri { 10 } else { COST_MAX_LOG2.load(Ordering::Relaxed) as u32 },
+        long_history_log2: if miri { 0 } else { LONG_HISTORY_LOG2.load(Ordering::Relaxed) as u32 },
     }
 }
 
@@ -600,6 +609,7 @@ pub fn op_name(op: &Op) -> &'static str {
         Op::FinderNew { .. } => "FinderNew",
         Op::FinderFind { .. } => "FinderFind",
         Op::FinderNeedle { .. } => "FinderNeedle",
+        Op::FinderRepeat { .. } => "FinderRepeat",
         Op::FinderClone { .. } => "FinderClone",
         Op::FinderOwn { .. } => "FinderOwn",
         Op::KillNeedle { .. } => "KillNeedle",
@@ -964,6 +974,9 @@ fn main() {
     if args.is_empty() {
         eprintln!("usage: memsim run|replay|minimise|gen|info ...");
         std::process::exit(2);
+    }
+    if let Some(v) = arg(&args, "--long-history") {
+        LONG_HISTORY_LOG2.store(v.parse().expect("--long-history"), Ordering::Relaxed);
     }
     if let Some(v) = arg(&args, "--cost-max-log2") {
         COST_MAX_LOG2.store(v.parse().expect("--cost-max-log2"), Ordering::Relaxed);
